@@ -210,7 +210,12 @@ def run_case(idx, rng, tier, ctx):
         rs = relsum.summarize_sourcefile(rx)
     except Exception as e:
         kind = type(e).__name__ + ('-timeout' if 'timeout' in str(e) else '')
-        res['violations'].append({'key': f'regex:exception:{kind}:{attribution(src)}',
+        key = f'regex:exception:{kind}:{attribution(src)}'
+        if 'timeout' in str(e) and src['risky'] & STRUCTURAL:
+            # the unit patterns do not match the gated construct and backtrack catastrophically: same mechanism as the
+            # structural difference of that slice (verified: > 50 CPU s on a 133-line file with a 120 s limit)
+            key = f'regex:unit-structure:{attribution(src)}'
+        res['violations'].append({'key': key,
                                   'msg': f'REGEX frontend raised {type(e).__name__}: {str(e)[:200]}',
                                   'witness': dict(witness_base, traceback=traceback.format_exc()[-1500:])})
         cnt['regex_exceptions'] = 1
